@@ -1,6 +1,8 @@
 package props
 
 import (
+	"strings"
+
 	"github.com/nlnwa/whatwg-url/url"
 	"pgregory.net/rapid"
 
@@ -60,8 +62,30 @@ func implParses(c Case01) (names []string, res []parsed) {
 	return
 }
 
+// interfere01 makes an unrelated call on the same default parser just before the calls under test:
+// the same text with a scheme of the other class. A result must not depend on what was parsed before
+// (caches keyed too coarsely, state left behind by a previous call).
+func interfere01(c Case01) {
+	in := string(c.Input)
+	sc := gen.SchemeOf(preprocess(in))
+	if sc == "" {
+		_, _ = url.Parse("foo:" + in)
+		return
+	}
+	i := strings.IndexByte(in, ':')
+	if i < 0 {
+		return
+	}
+	other := "foo"
+	if !isSpecialScheme(sc) {
+		other = "http"
+	}
+	_, _ = url.Parse(other + in[i:])
+}
+
 func compare01(env *spec.Env, c Case01, tr *spec.Trace) (msg string, mu *spec.URL, mok bool) {
 	mu, mok, _ = modelParse(env, c, tr)
+	interfere01(c)
 	names, res := implParses(c)
 	for i, p := range res {
 		if p.err == nil && p.u == nil {
